@@ -82,6 +82,12 @@ def cases():
         out.append(("condition:%s" % k, "  if %s:\n    8 [+1]  UInt  zz\n" % OPERANDS[k][0], k == "bool"))
         out.append(("requires:%s" % k, "@ATTR@  [requires: %s]\n" % OPERANDS[k][0], k == "bool"))
         out.append(("parameter:%s" % k, "  8 [+4]  Sized(%s)  zz\n" % OPERANDS[k][0], k == "int"))
+    # `$next` outside the start of a physical field: not an expression of any documented signature - must be rejected
+    # (KF-C13-2: in [requires] and in a parameter argument it currently crashes the type checker)
+    out.append(("builtin-position:$next-in-requires", "@ATTR@  [requires: $next == 1]\n", False))
+    out.append(("builtin-position:$next-in-parameter", "  8 [+4]  Sized($next)  zz\n", False))
+    out.append(("builtin-position:$next-in-size", "  8 [+$next]  UInt:8[]  zz\n", False))
+    out.append(("builtin-position:$next-in-offset", "  $next [+1]  UInt  zz\n", True))
     # same-named enums in two modules are different types
     imp = 'import "other.emb" as oth\n'
     for nm, expr, ok in (("==(Kind,oth.Kind)", "xk == yk", False), ("==(Kind,Kind)", "xk == zk", True), ("==(oth.Kind,oth.Kind)", "yk == oth.Kind.VA", True),
